@@ -51,7 +51,7 @@ type Interp struct {
 	nextLabel string // label of the statement about to be executed
 
 	execs      []Exec
-	qualified []string
+	qualified  []string
 	parsed     []string
 	tmpls      []*template.Template
 	methodKeys map[string]bool
